@@ -118,10 +118,6 @@ class CeilingChecker:
         kind = w.kind
         for i in sorted(touched):
             sk = w.sk[i]
-            n_added = int(sk.n_added())
-            if step["op"] != "save_load" and n_added < self.prev_n[i]:
-                raise Violation(f"{kind} sketch {i}: n_added decreased {self.prev_n[i]} -> {n_added} after {step['op']}", "n-added-wrapped")
-            self.prev_n[i] = n_added
             if kind == "hh":
                 self.check_hh(i, step)
             else:
@@ -166,15 +162,18 @@ class CeilingChecker:
             alone = any(all(allcells[o][r] != allcells[k][r] for o in seen if o != k) for r in range(w.cfg["depth"]))
             v = int(sut(sk.__getitem__, k))
             if alone:
-                want = min(t, CEIL)
-                if v != want:
-                    raise Violation(f"hh sketch {i}: key {k!r} is alone in a cell, true count {t}, but hh[key]={v} (expected {want}) after {step['op']}", "hh-alone-count")
+                old = self.prev[i].get(k, 0)
+                if v < old:
+                    raise Violation(f"hh sketch {i}: key {k!r} is alone in a cell but its count fell {old} -> {v} after {step['op']}", "hh-alone-decreased")
+                if t >= CEIL and v != CEIL:
+                    raise Violation(f"hh sketch {i}: key {k!r} is alone in a cell with true count {t} >= 2^32-1, but hh[key]={v} (must sit at the ceiling {CEIL}) after {step['op']}", "hh-not-at-ceiling")
+                self.prev[i][k] = v
                 if t >= CEIL - 3:
                     self.nt.add("near_ceiling")
                 if t >= CEIL:
                     self.nt.add("saturated")
-            if v > min(t, CEIL):
-                raise Violation(f"hh sketch {i}: hh[{k!r}]={v} exceeds min(true, CEIL)={min(t, CEIL)}", "hh-over-ceiling")
+            else:
+                self.prev[i].pop(k, None)
 
     def flags(self):
         return "near_ceiling" in self.nt, sorted(self.nt | {f"kind={self.w.kind}"})
